@@ -14,10 +14,10 @@ TECH.update({
  "C05":"rapid model-based testing: server wire JSON vs an independent executable model of the documented mapping, both directions",
  "C13":"rapid generation of schemas in a compile matrix; oracle = go build + go vet on emitted packages, Node type-stripping import of emitted TypeScript; IR-level shrinking",
 })
-TECH["C02"]="rapid property-based testing of the emitted Go server with raw HTTP requests; oracle = independent reference request binder (URL + body -> expected message or 400)"
-TECH["C09"]="rapid property-based testing of the emitted Go server with raw HTTP: header value sets vs an independent reference header validator and merge semantics"
-TECH["C10"]="rapid property-based testing through the generated Go client: error source x error hook behaviour x content type against the documented error contract"
-TECH["C11"]="rapid structure-aware mutation fuzzing of request bodies against the emitted Go server, and of responses against the emitted Go client; oracles: clean 200/400, no dispatch of undecodable bodies, no panic/hang"
+TECH["C02"]="rapid property-based testing of the emitted Go server and of the emitted TypeScript server (in Node) with raw HTTP requests; oracle = independent reference request binder (URL + body -> expected message or 400)"
+TECH["C09"]="rapid property-based testing of the emitted Go server and of the emitted TypeScript server (in Node) with raw HTTP: header value sets vs an independent reference header validator and merge semantics"
+TECH["C10"]="rapid property-based testing through the generated Go client (error source x error hook x content type), of the emitted TypeScript client with canned replies, and of URL-binding violations with raw HTTP, against the documented error contract"
+TECH["C11"]="rapid structure-aware mutation fuzzing of request bodies against the emitted Go server, of responses against the emitted Go and TypeScript clients, and body-read faults; oracles: clean 200/400, no dispatch of undecodable bodies, no panic/hang"
 TECH["C17"]="rapid-generated call multisets executed concurrently under the race detector; oracle = race report + per-call equality with isolated execution"
 TECH["C20"]="rapid property-based testing of the emitted mock server: build/vet oracle plus response decode/example-membership oracles"
 TECH["C18"]="rapid property-based testing of emitted OpenAPI documents: independent YAML/JSON parsers, structural invariants, YAML-vs-JSON metamorphic equality"
